@@ -177,6 +177,20 @@ def check_list(ctx, inst, rng, ports, kinds):
         ctx.violation("first-board discovery returned the wrong port", dict(witness, function="ebb_serial.findPort", returned=got_l, expected=want))
     if ok3 and got_3 != want:
         ctx.violation("first-board discovery returned the wrong port", dict(witness, function="EBB3.find_first", returned=got_3, expected=want))
+    # the same EBB3 object re-used across enumerations (history): the answer belongs to THIS list
+    shared = inst.__dict__.setdefault("shared_obj", ebb3.EBB3())
+    prev_ports = inst.__dict__.get("prev_ports")
+    oks, _ = call(ctx, witness, "EBB3.find_first (object re-used)", shared.find_first)
+    ctx.count("monitor:return values checked")
+    ctx.tag("history: object re-used after %s" % ("an empty list" if prev_ports == [] else "a list with a board"
+                                                  if prev_ports and first_board(prev_ports) else "a list without boards / first use"))
+    if not ports:
+        ctx.tag("history: empty list on a re-used object")
+    if oks and shared.port_name != want:
+        ctx.violation("first-board discovery on a re-used object returned a port of an earlier enumeration",
+                      dict(witness, function="EBB3.find_first", returned=shared.port_name, expected=want,
+                           previous_ports=prev_ports))
+    inst.prev_ports = [list(p) for p in ports]
 
     # --- listing ---
     want_list = board_list(ports)
@@ -294,6 +308,8 @@ def run(ctx):
                 "lookup: no earlier port matches", "lookup: an earlier port matches too"):
         ctx.need(cls, 100)
     ctx.need("monitor:return values checked", 50000)
+    ctx.need("history: empty list on a re-used object", 200)
+    ctx.need("history: object re-used after a list with a board", 1000)
     ctx.need("monitor:layer agreement checked", 5000)
 
 
